@@ -20,10 +20,11 @@ CFG = T.RecT("MazeDatasetConfig", grid_n=T.Nat, n_mazes=T.Int)
 DATASET = T.RecT("MazeDataset", cfg=CFG, mazes=T.ListT(SOLVED), generation_metadata_collected=T.Const({"collected": True}))
 
 
-@contract(LM, "SolvedMaze.__init__", assumed=True,
-          notes="trusted: the dataclass-generated TargetedLatticeMaze.__init__ stores the fields and runs __post_init__ (reflection); validated by the bounded stand-ins of C03/C05/C09")
+@contract(LM, "SolvedMaze.__init__")
 class solved_maze_init:
-    params = dict(connection_list=T.GridT("bool", [2, None, None]), solution=T.GridT("int", [None, 2]))
+    """verified against the real body; the dataclass-generated initialiser of the base class is the trusted part (stores the fields, runs
+    TargetedLatticeMaze.__post_init__, which is itself under contract)"""
+    params = dict(self=T.RecT("SolvedMaze"), connection_list=T.GridT("bool", [2, None, None]), solution=T.GridT("int", [None, 2]), generation_meta=T.Const(None))
     ensures = {
         "fields": "same_grid(result.connection_list, connection_list) and same_grid(result.solution, solution)",
         "start": "result.start_pos[0] == solution[0][0] and result.start_pos[1] == solution[0][1]",
